@@ -338,9 +338,11 @@ def _panel_sums(f, edges):
     return (hi - lo) * (vals @ _GLW)
 
 
-def adaptive_integral(f, edges, tol, max_rounds=40):
+def adaptive_integral(f, edges, tol, max_rounds=30, max_panels=4096):
     """adaptive composite Gauss–Legendre: a panel is accepted when splitting it in two changes its value by
-    less than its share of `tol`; deterministic; `f` is evaluated on float arrays"""
+    less than its share of `tol`; deterministic; `f` is evaluated on float arrays.  Work is bounded: when more than
+    `max_panels` panels are still unresolved (an integrand with rounding noise above `tol`), or after `max_rounds`
+    halvings, the finest values are taken as they are."""
     edges = np.asarray(sorted(set(float(e) for e in edges)), dtype=float)
     total = 0.0
     width = edges[-1] - edges[0]
@@ -356,6 +358,8 @@ def adaptive_integral(f, edges, tol, max_rounds=40):
         if np.all(ok):
             return total
         bad = ~ok
+        if int(np.sum(bad)) * 2 > max_panels:
+            return total + float(np.sum(fine[bad]))
         lo = np.concatenate([lo[bad], mid[bad]])
         hi = np.concatenate([mid[bad], hi[bad]])
         cur = np.concatenate([left[bad], right[bad]])
